@@ -428,6 +428,21 @@ impl SubCheck for PqSub {
             .boxed()
     }
     fn eval(&self, c: &PqCase) -> Verdict {
+        // a panic inside the queue (index out of bounds on a corrupted heap, ...) is a violation
+        match std::panic::catch_unwind(std::panic::AssertUnwindSafe(|| self.eval_inner(c))) {
+            Ok(v) => v,
+            Err(_) => Verdict::Fail {
+                signature: "C20/queue-panicked".into(),
+                clause: "queue-panicked".into(),
+                detail: "an operation of the priority queue panicked on this sequence".into(),
+                props: &["C20"],
+            },
+        }
+    }
+}
+
+impl PqSub {
+    fn eval_inner(&self, c: &PqCase) -> Verdict {
         let mut model: Vec<(u8, u64)> = Vec::new();
         let mut n = 0u64;
         let mut classes = Vec::new();
